@@ -68,6 +68,7 @@ def gen_case(rng, params, index):
             g["benign"] = benign
         if not plant:
             g["markers"] = {s: docs.markers(model[s]) for s in srcs if docs.markers(model[s])}
+            g["palette_defaults"] = {s: docs.palette_defaults(model[s]) for s in srcs if docs.palette_defaults(model[s])}
         return g
 
     pre = rng.chance(0.65)
@@ -278,6 +279,21 @@ def run_case(case, env):
                             vs.append(V("accepted-takes-effect", "c04:attached-value-in-neither-output",
                                         "accepted document %s: the constant attached value %d (a QLayout.* stretch / minimum binding) is in neither output: <layout> elements are\n%s"
                                         % (s, m, "\n".join(l.strip() for l in text.splitlines() if "<layout" in l)[:600])))
+            if res.exit_status == 0:
+                # a role bound on the palette itself takes effect in each of the three colour groups (none of the explicit
+                # groups of these documents binds it)
+                for s, pd in sorted(step.get("palette_defaults", {}).items()):
+                    one = dict(step, sources=[s])
+                    uis = [p for p in engine.predicted_outputs(one, sb.root, sb.cwd) if p.endswith(".ui")]
+                    text = (after.content(sb.rel(uis[0])) or b"").decode("utf-8", "replace") if uis else ""
+                    for role, (cr, cg, cb) in pd:
+                        _bump(probes, "palette_default_roles_looked_up_in_the_ui")
+                        n = len([1 for m in re.findall(r"<color\b[^>]*>(.*?)</color>", text, re.S)
+                                 if dict(re.findall(r"<(red|green|blue)>\s*(\d+)\s*</", m)) == {"red": str(cr), "green": str(cg), "blue": str(cb)}])
+                        if n < 3:
+                            vs.append(V("accepted-takes-effect", "c04:palette-default-role-missing",
+                                        "accepted document %s: palette.%s: #%02x%02x%02x (bound on the palette itself, by no explicit group) is in %d of the 3 colour groups of the .ui"
+                                        % (s, role, cr, cg, cb, n)))
             if res.exit_status != 0:
                 vs.append(V("recovery", "c04:clean-doc-rejected", "document without planted error exits %s:\n%s" % (res.disposition(), res.stderr[-600:])))
             else:
